@@ -279,22 +279,38 @@ at all the Go function returns zero bytes): the lengths `int32(offsets[i+1]-offs
 def mirrorEncodeDLBA (vs : List (List Nat)) : List Nat :=
   mirrorEncode32 (vs.map fun v => BitVec.ofNat 32 v.length) ++ vs.flatten
 
-/-- MIRROR length_byte_array.go:20-35 `EncodeByteArray` on the raw `(src, offsets)` input as the
-Go API takes it: nothing at all without offsets; otherwise the lengths of consecutive offsets,
-then `append(dst, src...)` (line 33) — the whole of `src`, not the window
-`src[offsets[0]:offsets[n]]` the offsets describe. -/
-def mirrorEncodeDLBARaw (src : List Nat) (offsets : List Nat) : List Nat :=
+/-- MIRROR of `EncodeByteArray` on the raw `(src, offsets)` input **as it was before the repair**
+(`fix: DELTA_LENGTH_BYTE_ARRAY encodes the offsets window, not the whole buffer`): nothing at all
+without offsets; otherwise the lengths of consecutive offsets, then `append(dst, src...)` — the
+whole of `src`. Kept as a regression fact (`dlba_window_violation_before_fix`). -/
+def mirrorEncodeDLBARawBeforeFix (src : List Nat) (offsets : List Nat) : List Nat :=
   if offsets.isEmpty then []
   else mirrorEncode32 ((offsets.zip offsets.tail).map fun ab => BitVec.ofNat 32 (ab.2 - ab.1)) ++ src
+
+/-- `offsets[len(offsets)-1]` for the offsets `o :: rest` -/
+def lastOff : Nat → List Nat → Nat
+  | o, [] => o
+  | _, b :: r => lastOff b r
+
+/-- MIRROR length_byte_array.go:20-35 `EncodeByteArray` on the raw `(src, offsets)` input as the
+Go API takes it: nothing at all without offsets; otherwise the lengths of consecutive offsets
+(length_byte_array_purego.go:5-9), then `append(dst, src[offsets[0]:offsets[len(offsets)-1]]...)`
+(line 33) — the window the offsets describe. -/
+def mirrorEncodeDLBARaw (src : List Nat) (offsets : List Nat) : List Nat :=
+  match offsets with
+  | [] => []
+  | o :: rest =>
+    mirrorEncode32 (((o :: rest).zip rest).map fun ab => BitVec.ofNat 32 (ab.2 - ab.1))
+      ++ (src.drop o).take (lastOff o rest - o)
+
+/-- offsets are non-decreasing (what every producer of a `(src, offsets)` pair guarantees) -/
+def nondecreasing : List Nat → Bool
+  | a :: b :: r => decide (a ≤ b) && nondecreasing (b :: r)
+  | _ => true
 
 /-- the values a `(src, offsets)` pair denotes (what PLAIN and DELTA_BYTE_ARRAY encode) -/
 def windowValues (src : List Nat) (offsets : List Nat) : List (List Nat) :=
   (offsets.zip offsets.tail).map fun ab => (src.drop ab.1).take (ab.2 - ab.1)
-
-/-- the offsets of `vs` laid out back to back from offset `o` -/
-def offsetsFrom (o : Nat) : List (List Nat) → List Nat
-  | [] => [o]
-  | v :: vs => o :: offsetsFrom (o + v.length) vs
 
 /-- MIRROR byte_array.go:196-201 `linearSearchPrefixLength`: number of leading equal bytes. -/
 def commonPrefix : List Nat → List Nat → Nat
